@@ -7,6 +7,9 @@ Proof:  Properties/C24.v — for EVERY streaming codec meeting the contract (seg
         Flush is necessary.
 Tie:    the REAL gzip / zstd / brotli wrappers (two levels) and no wrapper, over an in-memory duplex
         connection that re-segments the stream (1 byte, irregular, MTU-like), both directions,
+        long-lived connections (cumulative traffic beyond every size/memory option, zstd also with a
+        small configured budget), healthy connections interleaved with failed handshakes (peer hangs
+        up / silent until the deadline / other protocol / dies in the header) on one wrapper instance,
         wrapper instances reused for consecutive connections (pool recycling), write sizes
         0, 1, 2^k±1 … 1 MiB. After EVERY Write the peer must read exactly that Write's bytes with no
         further Write (promptness) and they must be equal (losslessness) — this is the codec
@@ -60,9 +63,16 @@ def run(ctx):
                 sig = "panic:" + r["Codec"].split("-")[0]
             else:
                 sig = "io-error:" + r["Codec"].split("-")[0]
-            ctx.violation(sig, "compressed connection (%s, connection #%d of this wrapper, transport segmentation %s): %s" %
-                          (r["Codec"], r["ConnNo"], {0: "none", 1: "1 byte"}.get(r["Seg"], "<=%d bytes" % r["Seg"]), msg),
-                          {"codec": r["Codec"], "connection_no": r["ConnNo"], "segmentation": r["Seg"],
+            kind = r.get("Kind", "mixed")
+            if kind == "long-lived":
+                sig += ":long-lived-connection"
+                msg += " [cumulative bytes written on this connection before the failing Write: %d]" % sum(w["Size"] for w in r["Writes"][:-1])
+            elif kind == "after-aborts":
+                sig += ":after-failed-handshakes"
+                msg += " [healthy connection following failed handshakes on the same wrapper instance: %s]" % "; ".join(r.get("Aborts") or [])
+            ctx.violation(sig, "compressed connection (%s, %s, connection #%d of this wrapper, transport segmentation %s): %s" %
+                          (r["Codec"], kind, r["ConnNo"], {0: "none", 1: "1 byte"}.get(r["Seg"], "<=%d bytes" % r["Seg"]), msg),
+                          {"codec": r["Codec"], "scenario": kind, "aborted_connections_before": r.get("Aborts"), "connection_no": r["ConnNo"], "segmentation": r["Seg"],
                            "writes(dir,size,wire_bytes,readable_after)": [(w["Dir"], w["Size"], w["Wire"], w["Got"]) for w in r["Writes"]][:400],
                            "how": "Wrap both ends of an in-memory duplex conn with the named wrapper; perform the writes in order; after each, read Size bytes from the peer with a 3 s deadline"})
 
@@ -124,16 +134,18 @@ def run(ctx):
             b = "0" if w["Size"] == 0 else "1" if w["Size"] == 1 else "2^%d.." % (w["Size"].bit_length() - 1)
             sizes[b] = sizes.get(b, 0) + 1
         if sum(w["Size"] for w in r["Writes"]) > 0:
-            distinct.add(canon_hash([r["Codec"], r["Seg"], [(w["Dir"], w["Size"]) for w in r["Writes"]]]))
+            distinct.add(canon_hash([r["Codec"], r.get("Kind"), r["Seg"], [(w["Dir"], w["Size"]) for w in r["Writes"]]]))
     ctx.coverage.update({
         "evaluations": nwrites,
         "distinct_nontrivial": len(distinct),
         "rule": "a connection run = (codec, transport segmentation, sequence of (direction, write size)); non-trivial = carries at least one byte; every Write is checked for promptness and equality",
         "write_size_histogram": sizes, "per_codec": per_codec,
+        "scenarios": {k: sum(1 for r in runs if r.get("Kind", "mixed") == k) for k in ("mixed", "long-lived", "after-aborts")},
+        "long_lived_MiB": {r["Codec"]: sum(w["Size"] for w in r["Writes"]) >> 20 for r in runs if r.get("Kind") == "long-lived"},
         "model_mismatches": mism, "model_runs": len(small),
         "samples": [{"codec": r["Codec"], "seg": r["Seg"], "writes": [(w["Dir"], w["Size"], w["Wire"]) for w in r["Writes"][:8]]} for r in runs[5:8]],
         "theorems": ["C24_lossless_and_prompt_partial", "C24_prompt_after_each_write_partial", "C24_incremental_partial",
-                     "C24_wire_only_grows", "C24_reads_in_order", "C24_contract_satisfiable", "C24_flush_is_needed"],
+                     "C24_wire_only_grows", "C24_reads_in_order", "C24_contract_satisfiable", "C24_flush_is_needed", "C24_no_cumulative_limit_partial", "C24_failed_handshakes_do_not_poison_the_pool", "C24_pooled_lazy_reader_refuted"],
     })
 
 
